@@ -22,9 +22,22 @@ def step (cfg : Cfg) (_ : Unit) (w : List String) : Unit × String :=
       else if kind == "aod" then ((), Aod.imgLine cfg.aod seed b.toList)
       else ((), "bad-kind")
     | _, _ => ((), "bad-op")
-  | "ENC" :: kind :: "T" :: rest =>
+  | ["VRD", kind, seed, hex] =>   -- verdict only (corrupted images)
+    match seed.toNat?, parseHexBytes hex with
+    | some seed, some b =>
+      let exp := Theta.expSeedHash seed
+      let acc :=
+        if kind.startsWith "theta" then (Theta.decode cfg.theta exp b.toList).isSome
+        else if kind == "tuple_f64" || kind == "tuple_i64" then (Tuple.decode cfg.tuple Tuple.u64Codec exp b.toList).isSome
+        else if kind == "tuple_str" then (Tuple.decode cfg.tuple (Tuple.strCodec 4) exp b.toList).isSome
+        else if kind == "tuple_cst" then (Tuple.decode cfg.tuple (Tuple.strCodec 1) exp b.toList).isSome
+        else if kind == "aod" then (Aod.decode cfg.aod exp b.toList).isSome
+        else false
+      ((), if acc then "accept" else "reject")
+    | _, _ => ((), "bad-op")
+  | "ENC" :: kind :: _seed :: "T" :: rest =>
     if kind.startsWith "theta" then ((), Theta.encLine cfg.theta kind rest) else ((), "bad-kind")
-  | "ENC" :: kind :: "U" :: rest =>
+  | "ENC" :: kind :: _seed :: "U" :: rest =>
     if kind.startsWith "tuple" then ((), Tuple.encLine cfg.tuple kind rest) else ((), "bad-kind")
   | "BP" :: _ => ((), BitPack.bpLine w)
   | "BPT" :: _ => ((), BitPack.bpLine w)
